@@ -315,7 +315,13 @@ ConstraintDefs == <<
   D("C-pow2p", TInt(CUnion(R(0, 0), CVal(BI(256))))),
   D("C-u16-union", TInt(CUnion(R(0, 10), CVal(BI(65535))))),
   D("C-u16p-union", TInt(CUnion(R(0, 10), CVal(BI(65536))))),
-  D("C-u32-union", TInt(CUnion(R(0, 3600), CVal(BV(UInt32Max))))),              \* a gap between 0 and 2^32 - 1
+  D("C-u32-union", TInt(CUnion(R(0, 3600), CVal(BV(UInt32Max))))),
+  D("C-allexcept", TInt(CSerial(R(0, 100), CAllExcept(CVal(BI(5)))))),           \* INTEGER (0..100)(ALL EXCEPT 5)
+  D("C-allexcept-size", TOctets(CAllExcept(CVal(BI(0))))),                      \* OCTET STRING (SIZE (ALL EXCEPT 0))
+  D("C-size-64k", TOctets(R(1, 65536))),
+  D("C-size-64k-union", TOctets(CUnion(R(1, 2), CVal(BI(65536))))),
+  D("C-size-64k-inter", TOctets(CInter(CRange(BMin, BI(65536)), CRange(BI(1), BMax)))),
+  D("C-seqof-64k", TSeqOf(TBool, R(1, 65536))),              \* a gap between 0 and 2^32 - 1
   D("C-gap-minmax", TInt(CUnion(CRange(BMin, BV(INeg(IOfInt(5)))), CRange(BV(IOfInt(5)), BMax)))),   \* MIN..-5 | 5..MAX
   D("C-size-union", TOctets(CUnion(R(1, 2), CVal(BI(4))))),
   D("C-size-inter", TOctets(CInter(R(0, 10), R(2, 3)))),
